@@ -15,6 +15,10 @@
    functions whose errors are discarded.  FIXD6 = FALSE is the pinned restore: manifest parse errors
    ignored, a worker that hits a read error exits.  TRUE = repaired behaviour.
 
+   FIXD11 = FALSE: files.json may name one shard twice (a name altered into another listed name); the shard checksum is an
+   XOR of per-item CRC32s, so two different shards often have the same value (worst case assumed here: whenever they hold the
+   same number of items) and the per-position comparison accepts the wrong shard.
+
    C12: ret = "ok" => Load = exact;  a crash at any point leaves Load in {error, exact}.
    C11: every single-fault damage of a completed backup leaves Load in {error, exact}.
    C05 (file-system part): a successful store loads exactly. *)
@@ -23,7 +27,8 @@ EXTENDS Integers, Sequences, FiniteSets, TLC
 CONSTANTS Shards,      \* set of shard ids
           ItemsIn,     \* shard -> number of items the scan writes to it
           LoadConc,    \* number of restore workers
-          FIXD6, FIXD7
+          FIXD6, FIXD7,
+          FIXD11       \* TRUE: the loader rejects a files manifest that names a shard twice
 
 VARIABLES pc,        \* program counter of StoreToDisk
           disk,      \* shard -> [exists, n]   units on disk
@@ -151,24 +156,32 @@ BSpec == BInit /\ [][BNext]_bkvars
 ShardState(d, s) == IF ~d.sh[s].exists THEN "missing"
                     ELSE IF d.sh[s].n < Total(s) THEN "short"       \* any strict prefix: read error / no terminator
                     ELSE d.sh[s].c
+(* d.names[p] = the shard file that position p of files.json names (the identity in an undamaged backup) *)
+Used(d) == {d.names[p] : p \in Shards}
+Renamed(d) == {p \in Shards : d.names[p] # p}
+SameSum(s, t) == ItemsIn[s] = ItemsIn[t]      \* may the XOR-of-CRC32 checksums of two different shards coincide?  (worst case)
 Load(d) ==
   IF d.man["nitro"] = "empty" THEN "error"
   ELSE IF d.man["files"] = "absent" THEN "error"
   ELSE IF d.man["files"] = "empty" THEN (IF FIXD6 THEN "error" ELSE "wrong")          \* Unmarshal error ignored: zero shards
   ELSE IF d.man["checksums"] = "empty" THEN (IF FIXD6 THEN "error" ELSE "panic")      \* short checksum slice indexed
-  ELSE IF \E s \in Shards : ShardState(d, s) = "missing" THEN "error"
-  ELSE LET bad == {s \in Shards : ShardState(d, s) = "short"} IN
+  ELSE IF FIXD11 /\ Renamed(d) # {} THEN "error"                                      \* a name listed twice
+  ELSE IF \E s \in Used(d) : ShardState(d, s) = "missing" THEN "error"
+  ELSE LET bad == {s \in Used(d) : ShardState(d, s) = "short"} IN
        IF bad # {} THEN
           (IF FIXD6 THEN "error"
            \* pinned: a worker that hits a read error exits; the feeder blocks once no worker is left
            ELSE IF Cardinality(bad) >= LoadConc /\ Cardinality(Shards) > Cardinality(bad) THEN "hang" ELSE "error")
-       ELSE IF \E s \in Shards : ShardState(d, s) = "altered" THEN
+       ELSE IF \E s \in Used(d) : ShardState(d, s) = "altered" THEN
                (IF d.man["checksums"] = "full" THEN "error" ELSE "wrong")
        ELSE IF d.man["nitro"] = "absent" /\ (\E s \in Shards : ItemsIn[s] > 0) THEN
                (IF d.man["checksums"] = "full" THEN "error" ELSE "wrong")             \* v1 frames read as v0: empty shards
+       ELSE IF \E p \in Renamed(d) : ItemsIn[p] > 0 \/ ItemsIn[d.names[p]] > 0 THEN      \* another shard's items in place of p's
+               (IF d.man["checksums"] = "full" /\ \E p \in Renamed(d) : ~SameSum(p, d.names[p]) THEN "error" ELSE "wrong")
        ELSE "exact"
 
-Image == [man |-> man, sh |-> [s \in Shards |-> [exists |-> disk[s].exists, n |-> disk[s].n, c |-> "intact"]]]
+Image == [man |-> man, sh |-> [s \in Shards |-> [exists |-> disk[s].exists, n |-> disk[s].n, c |-> "intact"]],
+          names |-> [s \in Shards |-> s]]
 
 (* ---- properties ---- *)
 C12_NoSilentPartial == ret = "ok" => Load(Image) = "exact"
@@ -182,6 +195,7 @@ Damages(d) ==
   \cup {[d EXCEPT !.sh[s].exists = FALSE] : s \in Shards}
   \cup UNION {{[d EXCEPT !.sh[s].n = k] : k \in 0..Total(s)} : s \in Shards}              \* truncation at every unit
   \cup {[d EXCEPT !.sh[s].c = "altered"] : s \in Shards}
+  \cup {[d EXCEPT !.names[p] = t] : p \in Shards, t \in Shards}                            \* a listed name altered into another listed name
 C11_DamageDetected == ret = "ok" => \A d \in Damages(Image) : d = Image \/ Load(d) \in {"error", "exact"}
 C11_MultiShard == ret = "ok" => \A S \in SUBSET Shards :
                      Load([Image EXCEPT !.sh = [s \in Shards |-> IF s \in S THEN [Image.sh[s] EXCEPT !.n = 0] ELSE Image.sh[s]]]) \in {"error", "exact"}
